@@ -324,8 +324,16 @@ Proof.
     injection H as <- <- <- <-. eapply sdrive_ext; eauto.
   - destruct (sdrive toks spn (sem n) n i ctx (mk_iter i ctx) None [] [] p a) as [[[[[[its fl] p1] e1]|] a1]|] eqn:E; try discriminate.
     injection H as <- <- <- <-. eapply sdrive_ext; eauto.
-  - destruct (sdrive toks spn (sem n) (S n0) i ctx (mk_iter i ctx) (Some n0) [] [] p a) as [[[[[[its fl] p1] e1]|] a1]|] eqn:E; try discriminate.
-    destruct fl; [discriminate|]. injection H as <- <- <- <-. eapply sdrive_ext; eauto.
+  - assert (HB : match sdrive toks spn (sem n) (S n0) i ctx (mk_iter i ctx) (Some n0) [] [] p a with
+                 | Some (Some (items, false, p1, e1), a1) => Some (Some (VList (rev (map sitem_val items)), p1, e1), a1)
+                 | Some (Some (_, true, p1, _), a1) => Some (None, fail_at K toks spn a1 p1 [pSomethingElse])
+                 | Some (None, a1) => Some (None, a1)
+                 | None => None
+                 end = Some (Some (v, p', e), a') -> p <= p' <= length toks).
+    { clear H. intros H.
+      destruct (sdrive toks spn (sem n) (S n0) i ctx (mk_iter i ctx) (Some n0) [] [] p a) as [[[[[[its fl] p1] e1]|] a1]|] eqn:E; try discriminate.
+      destruct fl; [discriminate|]. injection H as <- <- <- <-. eapply sdrive_ext; eauto. }
+    destruct n0; [destruct (its_fail (mk_iter i ctx)); [eapply IH; eauto|]|]; exact (HB H).
   - (* Foldl *)
     destruct (sem n g ctx p a) as [[[[[v1 p1] e1]|] a1]|] eqn:E1; try discriminate. apply IH in E1; auto.
     destruct (sdrive toks spn (sem n) n i ctx (mk_iter i ctx) None [] [] p1 a1) as [[[[[[its fl] p2] e2]|] a2]|] eqn:E; try discriminate.
